@@ -35,9 +35,7 @@ CONFIG = dict(
                   "FrameSummary.locals re-reprs the strings it is given; the harness undoes this with ast.literal_eval before comparing"],
     assumptions=["linecache returns the same text with and without module globals (sources are registered in linecache directly)",
                  "line numbers are non-negative"],
-    unproved_legs=["C19_projection is proved only level-wise (C19_projection_partial: summary and read-back skeleton are indexed by the "
-                   "same visible frames/contexts in the same order at every level); the whole-tree sequence statement is not proved",
-                   "pickle round trip, absence of frame objects in the gc.get_referents closure (types, modules and functions are "
+    unproved_legs=["pickle round trip, absence of frame objects in the gc.get_referents closure (types, modules and functions are "
                    "not traversed) and format_flat == header + StackSummary.format() + leaf + error are runtime comparisons on the "
                    "generated trees, not theorems"],
     timeout={"quick": 900, "thorough": 5400})
